@@ -83,6 +83,37 @@ def haze_bounds(ix, R, site, tag, profile_spec, profile_space):
     return f, fl, U
 
 
+class _Fill:
+    """rows of a zero buffer selected by a mask and set to a value, in either spelling:
+         B = zeros(shape); B[mask] = value            (one masked store)
+         B = np.where(mask[:, None], value, zeros(shape))   (also with the mask broadcast to the shape first)"""
+    def __init__(self, mask, value, base, node):
+        self.mask, self.value, self.base, self.node = mask, value, base, node
+
+
+def masked_fill(fl):
+    st = [e for e in fl.of('store') if atom_of(fl, e.target) is not None and atom_of(fl, e.target).head == 'idx']
+    if len(st) == 1:
+        ta = atom_of(fl, st[0].target)
+        return _Fill(ta.args[1] if isinstance(ta.args[1], RF) else None, st[0].value, unalloc(fl, ta.args[0]), st[0].node)
+    if st:
+        raise AnalysisError('expected exactly one masked store, found %d' % len(st))
+    wh = []
+    for e in fl.of('assign') + fl.of('store'):
+        a = atom_of(fl, unalloc(fl, e.value)) if isinstance(e.value, RF) else None
+        if a is not None and a.head == 'call' and a.extra == ('fn:where',) and len(a.args) == 3 and \
+                not any(fl.tab.equal(unalloc(fl, e.value), unalloc(fl, o.value)) for o, _ in wh):
+            wh.append((e, a))
+    if len(wh) != 1:
+        raise AnalysisError('expected exactly one masked store (or one np.where selection), found %d' % len(wh))
+    e, a = wh[0]
+    m = a.args[0]
+    ma = atom_of(fl, m)
+    if ma is not None and ma.head == 'call' and ma.extra and ma.extra[0] == 'fn:broadcast_to' and ma.args:
+        m = ma.args[0]          # the mask repeated along the wavenumber axis selects the same rows
+    return _Fill(m, a.args[1], unalloc(fl, a.args[2]), e.node)
+
+
 def run(ix, R):
     _run(ix, R)
     from rules.common import memo_obligation
@@ -96,16 +127,15 @@ def _run(ix, R):
         f = ix.func(site)
         fl = mkflow(ix, site, MT)
         pe = param_env(fl, f, ['model', 'wngrid'])
-        st = [e for e in fl.of('store') if atom_of(fl, e.target) is not None and atom_of(fl, e.target).head == 'idx']
-        s = one(st, 'masked store')
-        ta = atom_of(fl, s.target)
+        s = masked_fill(fl)
         mask = spec(fl, 'model.pressureProfile >= self._cloud_pressure', pe)
         why = []
-        if not isinstance(ta.args[1], RF) or not fl.tab.equal(ta.args[1], mask):
-            why.append('rows selected by %s, not by the boolean mask pressureProfile >= cloud pressure' % fmt(fl, ta.args[1]))
+        if s.mask is None or not fl.tab.equal(s.mask, mask):
+            why.append('rows selected by %s, not by the boolean mask pressureProfile >= cloud pressure' % (
+                fmt(fl, s.mask) if s.mask is not None else 'a slice'))
         if fmt(fl, s.value) != 'inf':
             why.append('masked rows set to %s' % fmt(fl, s.value))
-        z = unalloc(fl, ta.args[0])
+        z = s.base
         if not fl.tab.equal(z, spec(fl, 'zeros(shape=(model.nLayers, wngrid.shape[0]))', pe)):
             why.append('buffer %s' % fmt(fl, z))
         y = one(fl.of('yield'), 'yield')
@@ -235,17 +265,15 @@ def _run(ix, R):
     with R.guard('2.lee', 'UNIT', LM, 'lee haze bounds'):
         f, fl, U = haze_bounds(ix, R, LM + '::LeeMieContribution.prepare_each', 'lee', None, 'Pa')
         pe = param_env(fl, f, ['model', 'wngrid'])
-        st = [e for e in fl.of('store') if atom_of(fl, e.target) is not None and atom_of(fl, e.target).head == 'idx']
-        s = one(st, 'masked store')
-        ta = atom_of(fl, s.target)
+        s = masked_fill(fl)
         P = code(fl, 'model.pressureProfile')
         bt = spec(fl, '_guard(self.mieBottomPressure < 0, P[0], self.mieBottomPressure)', {'P': P})
         tp = spec(fl, '_guard(self.mieTopPressure < 0, P[-1], self.mieTopPressure)', {'P': P})
         mask = fl.tab.atom('binop', (spec(fl, 'P <= b', {'P': P, 'b': bt}), spec(fl, 'P >= t', {'P': P, 't': tp})),
                            extra='BitAnd')
         why = []
-        if not fl.tab.equal(ta.args[1], mask):
-            why.append('mask %s' % fmt(fl, ta.args[1]))
+        if s.mask is None or not fl.tab.equal(s.mask, mask):
+            why.append('mask %s' % (fmt(fl, s.mask) if s.mask is not None else None))
         # ---- 3. Lee formula
         b = {'a': code(fl, 'self.mieRadius'), 'Q0': code(fl, 'self.mieQ'), 'mix': code(fl, 'self.mieMixing'),
              'lam': spec(fl, '10000/wngrid', pe)}
